@@ -208,3 +208,10 @@ func writeReplay(v Violation) string {
 	os.WriteFile(p, b, 0o644)
 	return p
 }
+
+// Violations returns the violations recorded so far.
+func (r *Run) Violations() []Violation {
+	r.mu.Lock()
+	defer r.mu.Unlock()
+	return append([]Violation{}, r.violations...)
+}
